@@ -93,8 +93,8 @@ def raw_b(base, props, fns, desc, sse2=(4, 8), generic=(8, 16), thorough_sse2=(1
             cfgs.append('generic')
         tier = 'quick' if (n in sse2 or n in generic) else 'thorough'
         K('%s_n%d' % (base, n), 'B', props, fns, desc + ' [every abstract state with %d buckets]' % n, cfgs=cfgs, tier=tier,
-          timeout=timeout, mem=4, bound='buckets == %d' % n,
-          expect_unsat_covers=(['erase must leave a tombstone'] if False else []))
+          timeout=timeout, mem=4, bound='buckets == %d' % n)
+        KANI['%s_n%d' % (base, n)]['cfg_tier'] = {'sse2': 'quick' if n in sse2 else 'thorough', 'generic': 'quick' if n in generic else 'thorough'}
 
 
 raw_b('h_find', ['C01', 'C06', 'C02'], ['RawTable::find', 'RawTableInner::find_inner'],
@@ -179,7 +179,7 @@ R('r_panic_nodrop', ['C04', 'C02'], ['RawTableInner::rehash_in_place'], 'hasher 
 R('r_unlawful', ['C05'], ['HashMap::*', 'HashSet::*'], 'random / constant / inconsistent Hash and Eq answers over operation sequences: wf after every step, termination, exactly-once drops, len == yielded == drained, get_many_mut never aliases')
 R('r_raw_rustc_entry', ['C14'], ['HashMap::raw_entry', 'HashMap::raw_entry_mut', 'RawEntryBuilderMut::*', 'RawOccupiedEntryMut::*', 'RawVacantEntryMut::*', 'HashMap::rustc_entry', 'RustcEntry::*', 'RawTable::insert_no_grow'],
   'raw_entry / raw_entry_mut builders (from_key, from_key_hashed_nocheck, from_hash) and rustc_entry (reserve at creation, insert_no_grow) equal the association-list reference, full-load states included')
-R('r_layouts', ['C02'], ['Bucket::from_base_index', 'Bucket::as_ptr', 'Bucket::next_n', 'TableLayout::new', 'RawTableInner::new_uninitialized'],
+R('r_layouts', ['C02', 'C08', 'C03'], ['Bucket::from_base_index', 'Bucket::as_ptr', 'Bucket::next_n', 'TableLayout::new', 'RawTableInner::new_uninitialized'],
   'operation sequences + dropped/leaked drains for element layouts (), u8, u16, [u64;3], [u8;200], align 64: aligned control bytes and element references, len == yielded, valid after leak')
 R('r_split_tree', ['C19'], ['RawIterRange::split'], 'RawIterRange::split along any decision tree (depth <= 5): the leaves deliver exactly the full buckets, none twice')
 R('r_rayon', ['C19'], ['RawParIter', 'RawParDrain', 'RawIntoParIter', 'ParDrainProducer::split', 'ParDrainProducer::fold_with', 'ParDrainProducer::drop', 'par_extend', 'par_eq', 'parallel set operations'],
@@ -209,10 +209,18 @@ PROPERTIES = ['C%02d' % i for i in range(1, 21)]
 
 
 def kani_for(prop, tier):
+    """-> list of (obligation, [cfgs to run at this tier])"""
     out = []
     for o in KANI.values():
-        if prop in o['props'] and (tier == 'thorough' or o['tier'] == 'quick'):
-            out.append(o)
+        if prop not in o['props']:
+            continue
+        cfgs = []
+        for c in o['cfgs']:
+            t = (o.get('cfg_tier') or {}).get(c, o['tier'])
+            if tier == 'thorough' or t == 'quick':
+                cfgs.append(c)
+        if cfgs:
+            out.append((o, cfgs))
     return out
 
 
